@@ -42,7 +42,47 @@ def main():
         return 0
     run = Run(prop, a.tier, a.repo, level=mod.LEVEL, seed=seed)
     out = mod.check(run)
+    if a.tier == "thorough":
+        _thorough(run, prop, a.repo)
     return run.finish(**(out or {"explanation": mod.__doc__ or prop}))
+
+
+def _thorough(run, prop, repo):
+    """thorough tier: the same analysis, plus the check is exercised both ways on scratch copies of the tree under
+    analysis: every mutant of mutants/<cnn>.json must be reported, every benign variant must stay silent, and every
+    seeded change stored under seeded/ is re-run.  Results are recorded in the evidence and printed as SELFTEST lines;
+    they never change the verdict on the tree itself."""
+    import concurrent.futures as cf
+
+    from . import selftest
+
+    variants = selftest.load(prop)
+    seeded = selftest.load_seeded(prop)
+    res = []
+    with cf.ProcessPoolExecutor(max_workers=min(16, max(1, len(variants) + len(seeded)))) as ex:
+        futs = [ex.submit(selftest.run_variant, prop, v, repo) for v in variants]
+        futs += [ex.submit(selftest.run_seeded, prop, s, repo) for s in seeded]
+        for fu in futs:
+            try:
+                res.append(fu.result())
+            except Exception as e:  # noqa
+                res.append({"id": "?", "kind": "harness", "status": "harness-error", "why": repr(e)})
+    m = [r for r in res if r["kind"] == "mutant"]
+    b = [r for r in res if r["kind"] == "benign"]
+    sd = [r for r in res if r["kind"] == "seeded"]
+    summary = {
+        "mutants": len(m), "killed": sum(r["status"] == "killed" for r in m),
+        "benign": len(b), "silent": sum(r["status"] == "silent" for r in b),
+        "seeded_changes": len(sd), "seeded_caught": sum(r["status"] == "killed" for r in sd),
+        "issues": [{k: r.get(k) for k in ("id", "kind", "status", "why")} for r in res
+                   if r["status"] not in ("killed", "silent") and not (r["kind"] == "seeded" and r.get("expected") == "missed")],
+        "seeded": [{k: r.get(k) for k in ("id", "status", "expected", "reported")} for r in sd],
+    }
+    run.extra["selftest"] = summary
+    print(f"SELFTEST {prop}: mutants {summary['killed']}/{summary['mutants']} killed, benign {summary['silent']}/{summary['benign']} silent, "
+          f"seeded changes {summary['seeded_caught']}/{summary['seeded_changes']} reported")
+    for i in summary["issues"]:
+        print(f"  SELFTEST-ISSUE {prop} {i['id']} [{i['kind']}] -> {i['status']} {i.get('why') or ''}")
 
 
 def _show(repo, where):
